@@ -650,6 +650,9 @@ func (e *Exec) call(fn *ssa.Function, args []Value, bindings []Value) Value {
 	act := e.action(fn)
 	switch act.kind {
 	case actIntrinsic:
+		if act.condExec != nil && act.condExec(args) {
+			return e.execute(fn, args, bindings)
+		}
 		return act.intrinsic(e, fn, args)
 	case actRedirect:
 		e.RedirectsHit[act.name+" -> "+act.target.String()]++
